@@ -33,7 +33,7 @@ pub fn scenarios() -> Vec<Scenario> {
     }]
 }
 
-/// n[0]: 1 = run the systematic sweep as well
+/// n[0]: 1 = run the systematic sweep as well; n[1]: size bound of the complete sweep
 pub fn gen(rng: &mut Rng, tier: Tier, idx: u64) -> Case {
     let mut sw = gen::swarm(rng, tier == Tier::Thorough);
     // every type gets its turn
@@ -89,7 +89,8 @@ pub fn gen(rng: &mut Rng, tier: Tier, idx: u64) -> Case {
     c.read_script = script;
     c.read_tail = tail;
     c.reader_style = rng.below(3) as u8;
-    c.n = vec![i64::from(rng.chance(1, 3))];
+    // n[1]: frames up to this size get the complete position sweep
+    c.n = vec![i64::from(rng.chance(1, 3)), if tier == Tier::Thorough { 256 } else { 64 }];
     c
 }
 
@@ -153,7 +154,8 @@ fn run_g<C: Codec>(c: &Case, trace: bool) -> RunOut {
     // (i) sweep
     if c.n.first().copied().unwrap_or(0) == 1 {
         schedules.push((vec![], 1, vec![], false, "all-1".into()));
-        let positions: Vec<usize> = if len <= 64 {
+        let full = c.n.get(1).copied().unwrap_or(64).max(8) as usize;
+        let positions: Vec<usize> = if len <= full {
             (1..len).collect()
         } else {
             let mut p: Vec<usize> = Vec::new();
@@ -182,7 +184,7 @@ fn run_g<C: Codec>(c: &Case, trace: bool) -> RunOut {
             schedules.push((vec![ReadEv::Chunk(*k)], 0, vec![], false, format!("split@{k}")));
         }
         // a Pending (+ cancel) before read number j of the all-at-once delivery
-        let reads = base.offers.len().min(80);
+        let reads = base.offers.len().min(full + 16);
         for j in 0..=reads {
             for (cancel, wake) in [(false, WakeP::Now), (true, WakeP::Never), (true, WakeP::Later(3))] {
                 let mut s: Vec<ReadEv> = vec![ReadEv::Chunk(usize::MAX); j];
@@ -191,7 +193,7 @@ fn run_g<C: Codec>(c: &Case, trace: bool) -> RunOut {
             }
         }
         // a Pending + cancel before byte j of 1-byte delivery
-        for k in positions.iter().take(64) {
+        for k in positions.iter().take(full) {
             let mut s: Vec<ReadEv> = vec![ReadEv::Chunk(1); *k];
             s.push(ReadEv::Pending(WakeP::Now));
             schedules.push((s, 1, vec![true], false, format!("all-1+cancel@{k}")));
